@@ -64,6 +64,11 @@ type Solver struct {
 	avail    map[string]bool
 }
 
+// withTimeout: the same solver directory and availability, a different budget, its own cache.
+func (s *Solver) withTimeout(t int) *Solver {
+	return &Solver{dir: s.dir, timeoutS: t, cache: map[string]*SolveResult{}, avail: s.avail}
+}
+
 func NewSolver(dir string, timeoutS int) *Solver {
 	s := &Solver{dir: dir, timeoutS: timeoutS, cache: map[string]*SolveResult{}, avail: map[string]bool{}}
 	for _, sp := range solvers {
